@@ -98,7 +98,12 @@ def gen_case(rng, params, idx):
 def _probe(prog, calls):
     """probe vector: resolve() first (it must not answer from a half-built table either), then the call"""
     out = []
-    for c in calls:
+    for i_, c in enumerate(calls):
+        first = None
+        if i_ == 0:
+            # the very first thing after a fault is a plain call through the function, as a user would make it
+            # (resolve() and f.next() re-check and rebuild by themselves, which would hide a function left half-built)
+            first = norm(prog.call(c))
         try:
             r = prog.resolve(c)
             r = (r[0], r[1]) if r[0] == "handler" else r
@@ -112,7 +117,7 @@ def _probe(prog, calls):
             pos = prog.args(c)[0]
             prog.vf.alt = prog.args(c)[2]
             nx = norm(outcome(lambda: prog.ov.next(*pos), prog.vf, prog.names))
-        out.append((norm(r), norm(prog.call(c)), nx))
+        out.append((norm(r), norm(prog.call(c)), nx) + ((first,) if first is not None else ()))
     return out
 
 
@@ -393,7 +398,13 @@ def _invalid(spec, env, res, ref, behaviours):
         outs2 = _probe(prog, spec["probes"])
         behaviours.add(repr(outs))
         for label, vec in (("first-pass", outs), ("second-pass", outs2)):
-            for c, (r, o, nx) in zip(spec["probes"], vec):
+            for c, (r, o, nx, *_first) in zip(spec["probes"], vec):
+                if _first and not _is_config_error(_first[0]):
+                    res.violation("call-answered-while-invalid-method-registered", [spec["badkind"], label, _first[0][0], "first"], spec,
+                                  observed={"position": p, "call": c, "outcome": _first[0]},
+                                  acceptable="a configuration error (never a dispatch verdict or a method body)")
+                    prog.close()
+                    return
                 if nx != ("skipped",) and not _is_config_error(nx):
                     res.violation("next-answered-while-invalid-method-registered", [spec["badkind"], label, nx[0]], spec,
                                   observed={"position": p, "call": c, "f.next": nx},
